@@ -957,7 +957,95 @@ pub fn gen_rt_event(g: &mut Rng, seed: u64, section: &str, idx: u64) -> ModelEve
     if g.bool() {
         add_noisy(g, &mut me);
     }
+    if g.chance(1, 4) {
+        widen(g, &mut me);
+    }
     me
+}
+
+fn filler_value(g: &mut Rng, not_kind: Option<&str>) -> M {
+    loop {
+        let m = match g.below(4) {
+            0 => M::I64(g.irange(-9, 99)),
+            1 => M::Str((*g.pick(&["alpha", "3", "true", "zeta", ""])).to_string()),
+            2 => M::Bool(g.bool()),
+            _ => M::F64([2.5, -0.5, 1e9][g.usize(3)]),
+        };
+        let kind = match &m {
+            M::I64(_) => "int",
+            M::Str(_) => "str",
+            M::Bool(_) => "bool",
+            _ => "float",
+        };
+        if Some(kind) != not_kind {
+            return m;
+        }
+    }
+}
+
+fn kind_of(m: &M) -> &'static str {
+    match m {
+        M::Str(_) | M::Char(_) => "str",
+        M::Bool(_) => "bool",
+        M::F32(_) | M::F64(_) => "float",
+        other if other.as_int().is_some() => "int",
+        _ => "other",
+    }
+}
+
+/// Make the event WIDE: 20..24, 32..40 or 64..100 properties in total across its own properties and
+/// its ambient frames, keys in no sorted order at any level, and own keys (also well-known ones)
+/// shadowed in the frames — and repeated later in the own list — by values of another primitive type.
+pub fn widen(g: &mut Rng, me: &mut ModelEvent) {
+    let target = match g.below(3) {
+        0 => 20 + g.usize(5),
+        1 => 32 + g.usize(9),
+        _ => 64 + g.usize(37),
+    };
+    if me.ambient.is_empty() {
+        me.ambient.push(Vec::new());
+    }
+    let prefixes = ["w", "a_", "zz", "m.", "Vid", "vi", "vie", "k ", "é", "_"];
+    let mut j = 0usize;
+    let mut own_fillers: Vec<String> = Vec::new();
+    let current = |me: &ModelEvent| me.props.len() + me.ambient.iter().map(|f| f.len()).sum::<usize>();
+    while current(me) < target {
+        j += 1;
+        if g.bool() {
+            // an own property at a random position after `vid`; sometimes a later repeat of an
+            // earlier own key with another type (the first one wins)
+            let (key, m) = if !own_fillers.is_empty() && g.chance(1, 5) {
+                let k = g.pick(&own_fillers).clone();
+                let first_kind = me.first(&k).map(|p| kind_of(&p.model));
+                (k, filler_value(g, first_kind))
+            } else {
+                let k = format!("{}{}", g.pick(&prefixes), (j * 7919) % 1000);
+                (k, filler_value(g, None))
+            };
+            let repeat = own_fillers.contains(&key);
+            let pos = if repeat { me.props.len() } else { 1 + g.usize(me.props.len()) };
+            if !repeat {
+                own_fillers.push(key.clone());
+            }
+            me.props.insert(pos, Prop::new(&key, m, Cap::Typed));
+        } else {
+            // an ambient property, often shadowed by an own key (any own key, also `vid` / well-known ones)
+            let fi = g.usize(me.ambient.len());
+            let key = if g.chance(1, 3) && me.props.len() > 1 {
+                me.props[g.usize(me.props.len())].key.clone()
+            } else {
+                format!("{}{}", g.pick(&prefixes), (j * 104_729) % 1000)
+            };
+            if ["evt_kind", "metric_value", "noisy"].contains(&key.as_str()) || me.ambient[fi].iter().any(|p| p.key == key) {
+                continue;
+            }
+            let own_kind = me.props.iter().find(|p| p.key == key).map(|p| kind_of(&p.model));
+            let mut p = Prop::new(&key, filler_value(g, own_kind), Cap::Typed);
+            p.buffered = true;
+            me.ambient[fi].push(p);
+        }
+    }
+    me.directed = Some(format!("wide:{}", if target < 32 { "20-24" } else if target < 64 { "32-40" } else { "64+" }));
 }
 
 const U64_NANOS_SECS: u64 = 18_446_744_073; // u64::MAX nanoseconds ≈ 2554-07-21T23:34:33Z
